@@ -89,6 +89,17 @@ def flushSinksF (s : BSt) : BSt :=
       (s1.emit (.fthrow sid)).emit (.notify (faultNote "n:ffail" (kindAt k.fkind k'.fcalls)))
     else s1.emit (.flushed sid)) s
 
+/-- `_flush_and_run_active_sinks(_, interval)` (see `flushGate`): interval 0 = always; else the clock read (site 7) and the gate -/
+def flushGateF (inj : BSt → Nat → BSt) (s : BSt) (interval : Nat) : BSt :=
+  if interval = 0 then flushSinksF s
+  else
+    let s1 := inj s 7
+    if interval < s1.now - s1.lastFlush then flushSinksF { s1 with lastFlush := s1.now } else s1
+
+/-- F33 repair, head of `_cleanup_invalidated_loggers` (see `preEraseFlush`) -/
+def preEraseFlushF (s : BSt) : BSt :=
+  if s.cfg.flushBeforeLoggerErase && s.hasInvalidLoggers then flushSinksF s else s
+
 def processEventF (fc : FCfg) (s : BSt) (st : Stmt) : BSt × Option String × Option Nat :=
   match st.kind with
   | .log =>
@@ -201,9 +212,9 @@ def pollF (fc : FCfg) (inj : BSt → Nat → BSt) (s : BSt) : BSt :=
     else batchLoopF fc inj (totalBuffered s1 + 64) s1
   else
     let s2 := inj s1 5
-    let s3 := checkFailures inj (flushSinksF s2)
+    let s3 := checkFailures inj (flushGateF inj s2 s2.cfg.flushInterval)
     let r := allEmpty s3
-    if r.2 then cleanupLoggers inj (cleanupContexts r.1) else r.1
+    if r.2 then cleanupLoggers inj (preEraseFlushF (cleanupContexts r.1)) else r.1
 
 /-- `_exit` (read-pass faults are disarmed by the caller: an exception there ends the backend thread) -/
 def exitLoopF (fc : FCfg) (inj : BSt → Nat → BSt) (tick : Nat) : Nat → BSt → BSt
@@ -212,7 +223,7 @@ def exitLoopF (fc : FCfg) (inj : BSt → Nat → BSt) (tick : Nat) : Nat → BSt
     let r := allEmpty s
     if r.2 then
       let s1 := flushSinksF (checkFailures inj r.1)
-      cleanupLoggers inj (cleanupContexts s1)
+      cleanupLoggers inj (preEraseFlushF (cleanupContexts s1))
     else
       let s0 := { r.1 with now := r.1.now + tick }
       let (s1, count, aborted) := populateF fc inj s0
